@@ -308,7 +308,7 @@ theorem toyBody_prefix : ∀ (s : Str) (k : Nat), k < (toyEsc s).length + 2 →
     unfold toyEsc at hk ⊢
     by_cases hq : c = '"'
     · subst hq
-      simp only [Bool.or_true, BEq.rfl, Bool.true_or, if_true, List.length_cons] at hk ⊢
+      simp only [BEq.rfl, Bool.true_or, if_true, List.length_cons] at hk ⊢
       match k, hk with
       | 0, _ => rfl
       | 1, _ => simp [toyBody]
